@@ -76,7 +76,7 @@ Proof.
   unfold returns_error.
   generalize dependent (uses_of false (map role_of (params f))). intros usx.
   generalize dependent (nsrc (params f)). intros n.
-  destruct (accessible f), (is_func f); try leaf.
+  destruct (accessible f), (is_func f), (variadic f); try leaf.
   destruct (has_upd (params f)).
   - rewrite (W eq_refl).
     destruct (results f) as [|[|] [|r2 rr]]; try leaf.
@@ -142,7 +142,7 @@ Qed.
 
 Example accept_example :
   classify {| o_mode := Required; o_multi := false; o_allow_tp := false; o_update := false |}
-           {| accessible := true; is_func := true; type_params := false;
+           {| accessible := true; is_func := true; variadic := false; type_params := false;
               params := [ {| is_conv := false; is_upd := false; is_ctx := true |};
                           {| is_conv := false; is_upd := false; is_ctx := false |} ];
               results := [ROther; RErr] |}
